@@ -34,6 +34,11 @@ class DropLinkBase(Exception):
     """The device re-enumerates: the pending exchange fails with a link error."""
 
 
+class DeviceFault(Exception):
+    """Raised by a device model: the pending exchange ends in this transport fault."""
+    kind = "timeout"
+
+
 class Device:
     """Base class of device models."""
 
@@ -129,6 +134,9 @@ class Transport:
         except DropLinkBase:
             w.log.append(("x", idx, apdu, ("fault", "drop"), w.tag))
             raise_fault(w.drop_kind)
+        except DeviceFault as df:
+            w.log.append(("x", idx, apdu, ("fault", df.kind), w.tag))
+            raise_fault(df.kind)
         except SW as e:
             w.log.append(("x", idx, apdu, ("sw", e.sw), w.tag))
             raise comm_exception_for_sw(e.sw, e.data)
